@@ -23,6 +23,8 @@ from harness.impl import c17_walk as W
 DATA = None
 FIXED = datetime.datetime(2020, 1, 2, 3, 4, 5)
 HIDDEN = ('tricache', 'imgcache', 'newprivate')
+ACROSS_SAVES = ('scene_objects', 'node_objects', 'shapes', 'polygon_triangles', 'bound_triangleset', 'bound_item',
+                'partial_iter', 'triangleset', 'unbound_item')
 
 
 def data_dir():
@@ -584,7 +586,10 @@ def run_case(case):
             steps.append({'op': k, 'changed': [], 'changed2': [], 'repeat_equal': True, 'same_as_twin': a == b})
             if a != b:
                 fail('saved-bytes', 'save', 'a save after queries wrote %r, the never-queried twin wrote %r' % (a, b), i)
-            seg = {}
+            # a save is not an edit: what the scene yields (bound geometry, lights, cameras, shapes)
+            # must be the same before and after it; look-ups and listings that legitimately follow
+            # what a save normalises are compared within segments only
+            seg = {q: r for q, r in seg.items() if json.loads(q)[0] in ACROSS_SAVES}
             continue
         if k == 'edit':
             # an edit (not a query): applied to the document and to its twin alike
